@@ -30,6 +30,30 @@ class CSSRuleList(list):
 
     append = extend = __setitem__ = __setslice__ = __notimplemented
 
+    def __delitem__(self, index):
+        """``del rules[index]``: done by the owner of the list (which sets its
+        ``deleteRule`` as ``__delitem__`` of the instance) if there is one, so
+        a rule which must stay is refused and a deleted one is detached."""
+        owner = self.__dict__.get('__delitem__')
+        if owner is None or isinstance(index, slice) or self.__dict__.get('_indelete'):
+            list.__delitem__(self, index)
+            return
+        self.__dict__['_indelete'] = True
+        try:
+            owner(index)
+        finally:
+            self.__dict__['_indelete'] = False
+
+    def pop(self, index=-1):
+        "Remove and return the rule at `index`, see ``del rules[index]``."
+        rule = self[index]
+        del self[index if index >= 0 else len(self) + index]
+        return rule
+
+    def remove(self, rule):
+        "Remove `rule`, see ``del rules[index]``."
+        del self[self.index(rule)]
+
     def item(self, index):
         """(DOM) Retrieve a CSS rule by ordinal `index`. The order in this
         collection represents the order of the rules in the CSS style
